@@ -45,7 +45,7 @@ BASELINE = os.path.join(os.path.dirname(__file__), 'c06_baseline.json')
 L = 1600.0
 CUBES = [8, 16, 32, 64, 128]
 NONCUBIC = [(16, 24, 40), (32, 12, 20), (8, 48, 20), (24, 24, 24),
-            (40, 40, 40), (12, 16, 10)]
+            (40, 40, 40), (12, 16, 10), (32, 32, 10), (64, 48, 10)]
 
 
 def key_of(lap, tri, cyc, nu):
@@ -129,7 +129,10 @@ def suite_rates(ctx):
     # two non-cubic shapes (3*2^a, 5*2^b factors; more cells in y than in x)
     # in every tier
     jobs += [(lap, tri, cyc, nu, shp) for (lap, tri, cyc, nu) in sel
-             for shp in ((12, 16, 10), (16, 24, 40))]
+             for shp in ((12, 16, 10), (16, 24, 40), (32, 32, 10))]
+    # one 64^3 problem in every tier (many slices per prolongation call)
+    if not ctx.thorough:
+        jobs.append((*sel[seed % len(sel)], (64, 64, 64)))
     jobs += [(lap, tri, cyc, nu, (64, 64, 64)) for (lap, tri, cyc, nu) in big]
     if ctx.thorough:
         for i, (lap, tri, cyc, nu) in enumerate(big):
